@@ -15,6 +15,7 @@ CONSTANTS
   Backlog = 1
   WksCheck = TRUE
   SnlClean = TRUE
+  KeepDead = FALSE
 INVARIANT OneAddrPerSocket
 INVARIANT NoDoubleAlloc
 INVARIANT RangesRespected
